@@ -78,6 +78,29 @@ class Xform:
         if isinstance(s, ast.Expr) and isinstance(s.value, ast.Call) and self._is_d_method(s.value, ("pop",)):
             self.expr(s.value, env)
             return
+        if isinstance(s, ast.Expr) and isinstance(s.value, ast.Call) and isinstance(s.value.func, ast.Attribute) and isinstance(s.value.func.value, ast.Name) and s.value.func.value.id in env:
+            # a method of a constant record applied to the mapping (`rule.apply(data)`): interpreted with self := the record
+            from ..model import Rec
+
+            base = env[s.value.func.value.id]
+            if isinstance(base, tuple) and base[:1] == ("val",) and len(base) == 2 and isinstance(base[1], tuple) and base[1][:1] == ("const",):
+                base = base[1][1]
+            c = s.value
+            if isinstance(base, Rec) and len(c.args) == 1 and not c.keywords and self._is_d(c.args[0]):
+                dcl = self.ctx.prog.lookup_fullname(base._cls)
+                m = dcl.obj.find_method(c.func.attr) if dcl is not None and dcl.kind == "class" else None
+                if m is not None and len(m.positional_params) == 2 and not m.is_async:
+                    env2 = {"__d__": env["__d__"], m.positional_params[0]: base}
+                    saved_d, saved_f = self.d, self.f
+                    self.d, self.f = m.positional_params[1], m
+                    try:
+                        self.block(m.node.body, env2)
+                    except _Return as r:
+                        if r.value not in (None, "None"):
+                            raise AnalysisError(f"dictxform: {m.qualname} returns a value") from None
+                    finally:
+                        self.d, self.f = saved_d, saved_f
+                    return
         if isinstance(s, ast.If):
             self.block(s.body if self.test(s.test, env) else s.orelse, env)
             return
